@@ -54,14 +54,14 @@ func vfCborUnmarshal(data []byte, v any) error {
 			return nil
 		}
 	}
-	return errVfCbor
+	return errVfCbor14
 }
 
-var errVfCbor = vfErr("cbor: unexpected data")
+var errVfCbor14 = vfErr14("cbor: unexpected data")
 
-type vfErr string
+type vfErr14 string
 
-func (e vfErr) Error() string { return string(e) }
+func (e vfErr14) Error() string { return string(e) }
 
 func vfRouter(own netip.Addr, peer netip.Addr) *Router {
 	id := &m.Address{PublicAddress: m.PublicAddress{IP: own}}
@@ -85,9 +85,37 @@ func VfC14Hello() {
 	vf.Assume(ipA != ipB)
 	A, B := vfRouter(ipA, ipB), vfRouter(ipB, ipA)
 	b := frame.NewFrameBuilder()
-	aInit, bInit := false, false
-	for k := 0; k < K; k++ {
+	if vf.Bool() {
+		// start from an earlier, completed setup over which traffic has flowed; then one router
+		// (or neither) lost its encryption session (restart, session cleanup, "no encryption keys" error ping)
+		k1, k2 := vf.U64(), vf.U64()
+		vf.Assume(k1 != k2)
+		ea := state.VfEncSession(&vf.AEAD{KeyID: -1, K: k1}, &vf.AEAD{KeyID: -1, K: k2})
+		eb := state.VfEncSession(&vf.AEAD{KeyID: -1, K: k2}, &vf.AEAD{KeyID: -1, K: k1})
+		ea.VfTraffic(eb)
+		eb.VfTraffic(ea)
+		A.instance.State().GetSession(ipB).SetEncryptionSession(ea)
+		B.instance.State().GetSession(ipA).SetEncryptionSession(eb)
 		switch vf.Choose(3) {
+		case 1:
+			A.instance.State().GetSession(ipB).SetEncryptionSession(nil)
+		case 2:
+			B.instance.State().GetSession(ipA).SetEncryptionSession(nil)
+		}
+		vf.Reach("started-from-established-state")
+	}
+	aInit, bInit := false, false
+	aServedPending, bServedPending := false, false // served the peer's request while an own setup was outstanding
+	for k := 0; k < K; k++ {
+		switch vf.Choose(4) {
+		case 3:
+			// traffic flows in both directions under the current keys (only possible while they match)
+			ea, eb := A.instance.State().GetSession(ipB).VfEnc(), B.instance.State().GetSession(ipA).VfEnc()
+			ai, ao, as := ea.VfKeys()
+			bi, bo, bs := eb.VfKeys()
+			vf.Assume(as && bs && ao == bi && bo == ai)
+			ea.VfTraffic(eb)
+			eb.VfTraffic(ea)
 		case 0:
 			// handleTunPacket starts a setup only when the session is missing or not set up
 			vf.Assume(!A.instance.State().GetSession(ipB).Encryption().IsSetUp())
@@ -120,6 +148,15 @@ func VfC14Hello() {
 				vf.Stop()
 			}
 			hdr := &PingHeader{PingID: msg.opts.pingID, PingType: msg.opts.pingType, FollowUp: msg.opts.followUp}
+			if !hdr.FollowUp {
+				if st := dst.HelloPing.active[src]; st != nil && !st.done.Load() {
+					if dst == A {
+						aServedPending = true
+					} else {
+						bServedPending = true
+					}
+				}
+			}
 			_ = dst.HelloPing.Handle(vfW, f, hdr, msg.opts.pingData)
 		}
 	}
@@ -127,12 +164,32 @@ func VfC14Hello() {
 	sB := B.instance.State().GetSession(ipA)
 	aIn, aOut, aSet := sA.VfEnc().VfKeys()
 	bIn, bOut, bSet := sB.VfEnc().VfKeys()
+	allDelivered := true
+	for _, msg := range vfNet {
+		if !msg.delivered {
+			allDelivered = false
+		}
+	}
 	if aSet && bSet {
-		if aInit && bInit {
-			// both routers started a setup (crossing setups)
-			vf.Assert(aOut == bIn && bOut == aIn, "mismatching-keys-after-crossing-setups")
-		} else {
-			vf.Assert(aOut == bIn && bOut == aIn, "mismatching-keys-with-one-initiator")
+		match := aOut == bIn && bOut == aIn
+		switch {
+		case aServedPending && bServedPending:
+			// both routers served the other's request while their own setup was outstanding
+			vf.Assert(match, "mismatching-keys-after-crossing-setups")
+		case aInit && bInit && !allDelivered:
+			// both initiated and a setup message was lost for good
+			vf.Assert(match, "mismatching-keys-after-crossing-setups-with-lost-message")
+		case aInit && bInit:
+			vf.Assert(match, "mismatching-keys-after-crossing-setups-all-delivered")
+		default:
+			vf.Assert(match, "mismatching-keys-with-one-initiator")
+		}
+		if match {
+			// traffic sealed by either one unseals at the other: the next frame of each class
+			// is acceptable to the receiver's replay window
+			ea, eb := sA.VfEnc(), sB.VfEnc()
+			vf.Assert(state.VfSeqAccepts(eb.VfSeqSnap(), ea.VfNextOut(false), false) && state.VfSeqAccepts(eb.VfSeqSnap(), ea.VfNextOut(true), true), "keys-match-but-next-frame-rejected-by-replay-window")
+			vf.Assert(state.VfSeqAccepts(ea.VfSeqSnap(), eb.VfNextOut(false), false) && state.VfSeqAccepts(ea.VfSeqSnap(), eb.VfNextOut(true), true), "keys-match-but-next-frame-rejected-by-replay-window")
 		}
 		vf.Reach("both-set-up")
 	} else {
